@@ -10,6 +10,7 @@ def run_check(tier, seed, replay=None):
     wd = workdir("c07")
     mc_deflate(c, wd)
     replay_catalogue(c, wd, "C07")
+    all_pairs(c, wd, "C07")
     gen = gen_streams(wd, tier, seed + 1)
     res = replay_generated(c, wd, gen)
     n, acc = account(c, res, "C07", "generated")
